@@ -371,9 +371,19 @@ pub fn run(id: &'static str, tier: Tier, seed: u64) -> i32 {
             Stmt::Row(vec![Entry::Paren(name("i")), Entry::Paren(bin(BinOp::Rem, lit(9), name("Q"))), Entry::X]),
             Stmt::Let("k".into(), lit(7)),
             Stmt::Let("i".into(), lit(5)),
+            // a variable named like an output, given a value the device may be showing at that moment
+            Stmt::Let("Q".into(), lit(2)),
+            rowv(name("Q")),
             Stmt::Repeat(lit(2), vec![Entry::Paren(name("n")), Entry::Lit(0, Radix::Dec), Entry::X]),
         ];
-        let blocks = vec![Block::Loop("i".into(), lit(2)), Block::Loop("k".into(), lit(1))];
+        // the bounds 8 / Q and the let fail when the device answers Q = 0: one error item, statement skipped
+        let atoms = {
+            let mut a = atoms;
+            a.push(Stmt::Let("k".into(), bin(BinOp::Div, lit(8), name("Q"))));
+            a.push(Stmt::Repeat(bin(BinOp::Div, lit(2), name("Q")), vec![Entry::Paren(name("n")), Entry::Lit(0, Radix::Dec), Entry::X]));
+            a
+        };
+        let blocks = vec![Block::Loop("i".into(), lit(2)), Block::Loop("k".into(), lit(1)), Block::Loop("m".into(), bin(BinOp::Div, lit(4), name("Q")))];
         let menu = vec![MenuItem::ans(vec![("Q".into(), V::Num(0)), ("i".into(), V::Num(202))]), MenuItem::ans(vec![("Q".into(), V::Num(2)), ("i".into(), V::Num(202))])];
         let mut cases = vec![];
         for k in 1..=3 {
